@@ -4,7 +4,7 @@ import numpy as np
 from vmon.oracle import geometry as G
 
 CELL_CLASSES = ["ortho", "tri+++", "tri++-", "tri+-+", "tri+--", "tri-++", "tri-+-", "tri--+", "tri---", "tri_minimal", "ortho_minimal",
-                "upper_tri", "general_tri", "rotated_ortho"]
+                "upper_tri", "general_tri", "rotated_ortho", "left_handed", "ortho_big", "tri_big"]
 POSES = ["random", "identity", "rot90", "rot180", "axis_parallel", "axis_antiparallel", "axis_near_antiparallel", "axis_antiparallel_exact", "identity_exact"]
 
 
@@ -16,8 +16,19 @@ def make_cell(rng, cls, need):
             a, b, c = need + rng.uniform(0.35, 1.2, 3)
         else:
             a, b, c = need + rng.uniform(3.0, 8.0, 3)
+        if cls in ("ortho_big", "tri_big"):
+            # a large cell (40-70 A): coordinates are large numbers, the copies sit far from the origin
+            a, b, c = need + rng.uniform(35.0, 60.0, 3)
         if cls.startswith("ortho"):
             cell = np.diag([a, b, c])
+        elif cls == "left_handed":
+            # lattice vectors listed so that they form a left-handed triple (negative determinant): rows of a triclinic cell swapped,
+            # or one vector negated
+            sg = rng.choice([-1, 1], 3)
+            t = rng.uniform(0.12, 0.48, 3)
+            low = np.array([[a, 0, 0], [sg[0] * t[0] * a, b, 0], [sg[1] * t[1] * a, sg[2] * t[2] * b, c]])
+            r = int(rng.integers(3))
+            cell = low[[1, 0, 2]] if r == 0 else (low[[0, 2, 1]] if r == 1 else low * np.array([[1.0], [1.0], [-1.0]]))
         elif cls in ("upper_tri", "general_tri", "rotated_ortho"):
             # cells that are not in LAMMPS' lower-triangular form: tilt carried by the earlier cell vectors (upper
             # triangle), an arbitrarily oriented triclinic cell, an arbitrarily oriented cell with right angles
@@ -33,7 +44,7 @@ def make_cell(rng, cls, need):
             else:
                 cell = np.diag([a, b, c]).dot(G.random_rotation(rng).T)
         else:
-            if cls == "tri_minimal":
+            if cls in ("tri_minimal", "tri_big"):
                 sg = rng.choice([-1, 1], 3)
             else:
                 sg = [1 if ch == "+" else -1 for ch in cls[3:6]]
